@@ -387,6 +387,64 @@ def enum_and(seed):
             "27-bug universe", "cases": cases, "failures": fails}
 
 
+def enum_any_of(seed):
+    """any_of over operands that are single conditions, conjunctions (a & b) and any_of groups themselves, and & of such groups: the rendered
+    parameters, read by the reference chart reader and evaluated on every bug of a small universe (keywords over {A, B}, tags over {t}),
+    must mean the disjunction of the operands' meanings (conjunction for &)"""
+    from pkgcore.bugzilla.query import BugQuery
+    bugs = [{"keywords": set(k), "tag": set(t)} for k in ((), ("A",), ("B",), ("A", "B")) for t in ((), ("t",))]
+    atoms = [(BugQuery.keywords("A"), lambda b: "A" in b["keywords"], "kw(A)"), (BugQuery.keywords("B"), lambda b: "B" in b["keywords"], "kw(B)"),
+             (BugQuery.keywords("A", "B"), lambda b: bool(b["keywords"]), "kw(A B)"), (BugQuery.without_tags("t"), lambda b: "t" not in b["tag"], "no-tag(t)")]
+
+    def crit(node, b):
+        _k, field, op, values, neg = node
+        if op == "anywords":
+            r = any(v in b[field] for v in values)
+        elif op == "nowordssubstr":
+            r = not any(v in x for v in values for x in b[field])
+        else:
+            raise ValueError(op)
+        return r != neg
+
+    def ev(node, b):
+        if node[0] == "crit":
+            return crit(node, b)
+        kids = [ev(k, b) for k in node[2]]
+        return any(kids) if node[1] == "OR" else all(kids)
+    conj = [(x[0] & y[0], (lambda b, x=x, y=y: x[1](b) and y[1](b)), f"({x[2]} & {y[2]})") for x, y in itertools.permutations(atoms, 2)]
+    level1 = atoms + conj
+    cases, fails = 0, []
+
+    def judge(q, meaning, text):
+        nonlocal cases
+        cases += 1
+        try:
+            simple, forest, _slots = _parse(q.params())
+            bad = next((b for b in bugs if all(ev(n, b) for n in forest) != meaning(b)), None)
+        except Exception as e:
+            if len(fails) < 4:
+                fails.append({"model": {"query": text}, "detail": f"{text}: {type(e).__name__}: {e}"})
+            return
+        if (bad is not None or simple) and len(fails) < 4:
+            fails.append({"model": {"query": text}, "detail": f"{text} renders {q.params()}: a bug with keywords {sorted(bad['keywords'])} and tags {sorted(bad['tag'])} "
+                                                            f"{'matches' if not meaning(bad) else 'does not match'} the rendered search but {'does not satisfy' if not meaning(bad) else 'satisfies'} the operands' disjunction"
+                          if bad is not None else f"{text} renders simple parameters {simple}"})
+    groups = []
+    for x, y in itertools.permutations(level1, 2):
+        g = (BugQuery.any_of(x[0], y[0]), (lambda b, x=x, y=y: x[1](b) or y[1](b)), f"any_of({x[2]}, {y[2]})")
+        groups.append(g)
+        judge(*g)
+    rnd = random.Random(seed + 3737)
+    for _ in range(300):
+        ops = rnd.sample(level1 + groups, rnd.choice((1, 2, 3)))
+        g = (BugQuery.any_of(*[o[0] for o in ops]), (lambda b, ops=ops: any(o[1](b) for o in ops)), "any_of(" + ", ".join(o[2] for o in ops) + ")")
+        judge(*g)
+        other = rnd.choice(level1 + groups)
+        judge(g[0] & other[0], (lambda b, g=g, other=other: g[1](b) and other[1](b)), f"{g[2]} & {other[2]}")
+    return {"name": "C37.any_of.bounded_enumeration", "bound": "any_of over every ordered pair of 16 operands (4 single conditions, their 12 two-condition conjunctions), 300 seeded any_of of 1..3 operands drawn from those and from "
+            "any_of groups, each also combined with & ; rendered parameters evaluated on an 8-bug universe by the reference chart reader", "cases": cases, "failures": fails}
+
+
 def tasks():
     return [
         Task("C37.ChartGroup.render", t_group_render, [(FILE, "ChartGroup.render")]),
@@ -395,6 +453,7 @@ def tasks():
         Task("C37.BugQuery.params", t_params, [(FILE, "BugQuery.params")]),
         Task("C37.BugQuery.__and__", t_and, [(FILE, "BugQuery.__and__"), (FILE, "_merge_simple")], enumerate=enum_and),
         Task("C37.render_and_batches", None, [(FILE, "BugQuery.batches"), (FILE, "BugQuery._split_axis")], enumerate=enum_render_and_batches),
+        Task("C37.any_of", None, [(FILE, "BugQuery.any_of")], enumerate=enum_any_of),
     ]
 
 
